@@ -159,6 +159,9 @@ func (x *heapInst) call(o OpCall) string {
 	case "Meld":
 		n := x.h.Meld(x.other)
 		return consumeSliceSorted(n.GetValues())
+	case "MeldInto":
+		n := x.other.Meld(x.h)
+		return consumeSliceSorted(n.GetValues())
 	}
 	panic("harness: unknown heap op " + o.Op)
 }
@@ -187,7 +190,7 @@ var heapAdapter = adapter{
 	ops: []opDesc{
 		{name: "Size", single: true}, {name: "IsEmpty"}, {name: "Clear", single: true}, {name: "Peek", single: true},
 		{name: "GetValues"}, {name: "Push", nargs: 1, single: true}, {name: "Push2", nargs: 2, bRange: 3}, {name: "Pop", single: true},
-		{name: "Delete", nargs: 1, single: true}, {name: "Convert", nargs: 1, aRange: 2}, {name: "Merge"}, {name: "MergeInto"}, {name: "Meld"},
+		{name: "Delete", nargs: 1, single: true}, {name: "Convert", nargs: 1, aRange: 2}, {name: "Merge"}, {name: "MergeInto"}, {name: "Meld"}, {name: "MeldInto"},
 	},
 	build: func(init []int, cfg int) instance {
 		comp := lessInt
